@@ -8,8 +8,8 @@
     document order.  The push-down automaton of io/parser.py is not modelled: the property is about text and values. *)
 From Coq Require Import Lia String.
 From FA Require Import model.Base model.Varint model.Value model.Schema model.Float model.Utf8 model.Codec
-                       model.Validate model.Write model.Read model.JsonCodec proofs.VarintProofs proofs.CodecProofs
-                       proofs.JsonCodecProofs.
+                       model.Validate model.Write model.Read model.Conform model.JsonCodec proofs.VarintProofs proofs.CodecProofs
+                       proofs.JsonCodecProofs proofs.JsonPyProofs.
 Open Scope Z_scope.
 Open Scope list_scope.
 
@@ -111,6 +111,97 @@ Theorem C15_defaults : forall f e nm al fs kv l, nodupb (map (fun f => fname f) 
 Proof. exact json_defaults. Qed.
 Print Assumptions C15_defaults.
 
+(** the JSON reading of a default IS the binary writer's elaboration of it (the normal form of C01), under the computable side
+    condition [dflt_bin]: no bytes/fixed inside the default (their JSON default is a str that write_bytes rejects, DESIGN O1) and at
+    every union node the writer's branch search (C09) settles on the first branch -- which is the branch a default denotes *)
+Theorem C15_dflt_elab : forall f e s d a, dflt f e s d = Ok a -> dflt_bin f e s d = true -> elab f wo0 e s d = WOk a.
+Proof. exact dflt_elab. Qed.
+Print Assumptions C15_dflt_elab.
+
+(** ... hence C15_defaults in the binary codec's normal form: the component json_reader supplies for an absent key is the wire value
+    the binary writer produces for any record datum [dk] that omits the field (incl. its float(...) coercion of float/double fields) *)
+Theorem C15_defaults_binary : forall f e nm al fs kv l i fd d dv,
+  nodupb (map (fun f => fname f) fs) = true ->
+  json_dec (S f) e (SRecord nm al fs) (JvObj kv) = Ok (ARecord l) ->
+  nth_error fs i = Some fd -> fdefault fd = Some d -> dflt f e (ftype fd) d = Ok dv -> dflt_bin f e (ftype fd) d = true ->
+  json_dec (S f) e (SRecord nm al fs) (JvObj (jremove (fname fd) kv)) = Ok (ARecord (set_nth i dv l)) /\
+  elab f wo0 e (ftype fd) d = WOk dv /\
+  (forall dk l', dict_get dk (fname fd) = None -> elab (S f) wo0 e (SRecord nm al fs) (PDict dk) = WOk (ARecord l') ->
+     nth_error l' i = Some dv).
+Proof. exact json_defaults_binary. Qed.
+Print Assumptions C15_defaults_binary.
+
+(** a sufficient syntactic condition for the union clause of [dflt_bin] *)
+Theorem C15_first_branch_chosen : forall val e v b bs, hint_pass e v b = true -> val b v = Ok true ->
+  match (match strip b with SRef n => match lookup e n with Some d => strip d | None => strip b end | d => d end) with
+  | SRecord _ _ _ | SFloat => False | _ => True end ->
+  choose val e v (b :: bs) 0 (-1) (-1) false = Ok 0.
+Proof. exact choose_first. Qed.
+Print Assumptions C15_first_branch_chosen.
+
+(** json_reader(json_writer(v)) and the binary reader(writer(v)) return the same value, at the level of Python data, for every
+    datum the writer accepts -- under the computable side condition [c15_side f e s v]:
+      wf_env e, wf_schema s, wf_py v   (C01's: what the abstraction of Python objects / parsed schemas satisfies),
+      named_env e, wf_envb e, wfb s    (named_schemas holds definitions; distinct union labels, field names, enum symbols),
+      elab f wo0 e s v = WOk a         (the writer accepts the datum: defaults, branch choice, coercions done),
+      floats_ok a, float_leaves_ok a   (float leaves are IEEE patterns, finite, and survive widening + re-narrowing).
+    [json_write] = elab ; json_enc, [write] = elab ; wire.  The harness evaluates c15_side on every generated record (it must hold
+    whenever the model produces a document).  The statement has no exception for recursive types, field-less records, maps of
+    records or unconverted numbers: those are where the IMPLEMENTATION departs from it (known findings F11a-d, K4, K5). *)
+Theorem C15_json_binary : forall f e s v, c15_side f e s v = true ->
+  exists a j, elab f wo0 e s v = WOk a /\ json_write f e s v = Some j /\ write f wo0 e s v = WOk (wire a) /\
+    forall ro, exists pv, py_of ro e s a = Some pv /\
+      forall f', (f <= f')%nat -> json_read f' ro e s j = Ok pv /\ forall r, read f' ro e s (wire a ++ r) = Ok (pv, r).
+Proof. exact json_binary_py. Qed.
+Print Assumptions C15_json_binary.
+
+(** ---- observable behaviour of the reader as a whole (the push-down automaton of io/parser.py is not modelled step by step; these
+         are the consequences of its intended behaviour that the model carries and the correspondence ties to the code) ---- *)
+
+(** one document per record, each read exactly once, in order: json_reader over the documents json_writer wrote yields the
+    records' Python values and ends normally ([json_read_stream]: records yielded so far + how the iteration ended) *)
+Theorem C15_stream_roundtrip : forall n e s ro, wf_envb e = true -> wfb s = true -> forall avs js pvs,
+  Forall2 (fun a j => typedn n e s a /\ float_leaves_ok a = true /\ json_enc e s a = Some j) avs js ->
+  Forall2 (fun a pv => py_of ro e s a = Some pv) avs pvs ->
+  forall f, (n <= f)%nat -> json_read_stream f ro e s js = (pvs, Ok tt).
+Proof. exact stream_roundtrip. Qed.
+Print Assumptions C15_stream_roundtrip.
+
+(** prefix-closed: what is yielded for the first documents does not depend on what follows; a document that does not decode
+    ends the iteration exactly there -- the earlier records have been yielded, later documents are never looked at *)
+Theorem C15_stream_prefix : forall f ro e s d1 vs, json_read_stream f ro e s d1 = (vs, Ok tt) ->
+  (forall d2, exists ws, fst (json_read_stream f ro e s (d1 ++ d2)) = vs ++ ws) /\
+  (forall bad d2, json_read f ro e s bad = Err -> json_read_stream f ro e s (d1 ++ bad :: d2) = (vs, Err)).
+Proof.
+  intros f ro e s d1 vs H. split; [intros d2; exact (stream_prefix f ro e s d1 d2 vs H)|].
+  intros bad d2 Hb. exact (stream_cut f ro e s d1 bad d2 vs H Hb).
+Qed.
+Print Assumptions C15_stream_prefix.
+
+(** every member of a document is consumed exactly once: an array yields one item per element, a map one entry per member under
+    the member's key and in member order, a union object must have exactly one member, and a record object is read through its
+    field names only (member order and members that are not fields are irrelevant) *)
+Theorem C15_members_once : forall f e,
+  (forall it js l, json_dec (S f) e (SArray it) (JvArr js) = Ok (AArray l) -> length l = length js) /\
+  (forall vs kv l, json_dec (S f) e (SMap vs) (JvObj kv) = Ok (AMap l) -> map fst l = map fst kv) /\
+  (forall nm al fs kv kv', (forall fd, In fd fs -> jlookup kv (fname fd) = jlookup kv' (fname fd)) ->
+     json_dec (S f) e (SRecord nm al fs) (JvObj kv) = json_dec (S f) e (SRecord nm al fs) (JvObj kv')) /\
+  (forall bs kv, (length kv <> 1)%nat -> json_dec (S f) e (SUnion bs) (JvObj kv) = Err).
+Proof. exact json_dec_shape. Qed.
+Print Assumptions C15_members_once.
+
+(** a result never depends on the fuel once there is enough of it *)
+Theorem C15_fuel_mono : forall f f' e s j a, (f <= f')%nat -> json_dec f e s j = Ok a -> json_dec f' e s j = Ok a.
+Proof. intros f f' e s j a Hf H. exact (json_dec_fuel_mono f f' e s Hf j a H). Qed.
+Print Assumptions C15_fuel_mono.
+
+(** two different values never share a document *)
+Theorem C15_injective : forall n e s a a' j, wf_envb e = true -> wfb s = true ->
+  typedn n e s a -> typedn n e s a' -> float_leaves_ok a = true -> float_leaves_ok a' = true ->
+  json_enc e s a = Some j -> json_enc e s a' = Some j -> a = a'.
+Proof. exact json_enc_injective. Qed.
+Print Assumptions C15_injective.
+
 (** ---- non-vacuity ---- *)
 Open Scope string_scope.
 Definition k (x : string) : str := s2b x.
@@ -206,3 +297,47 @@ Proof.
   apply (C15_roundtrip 12 ex_env' tS ex_s);
     [vm_compute; reflexivity|vm_compute; reflexivity|exact C15_example_typed|vm_compute; reflexivity|apply le_n].
 Qed.
+
+(* defaults: the side condition holds for ordinary defaults (nested containers, a record default, a union whose first branch is int),
+   and is NECESSARY: for ["float","double"] the writer elaborates the default 1.5 under branch 1 (double), the JSON reading under
+   branch 0; a bytes default cannot be written by the binary writer at all *)
+Definition tD : schema :=
+  SRecord (k "D") [] [mkField (k "g") (SArray (SArray SInt)) (Some (PList [PList [PInt 1; PInt 2]; PList [PInt 3]])) [];
+                      mkField (k "u") (SUnion [SInt; SNull]) (Some (PInt 5)) [];
+                      mkField (k "x") SFloat (Some (PInt 1)) [];
+                      mkField (k "r") (SRecord (k "I") [] [mkField (k "p") SInt None []; mkField (k "q") SString (Some (PStr (k "qq"))) []])
+                              (Some (PDict [(PStr (k "p"), PInt 3)])) [];
+                      mkField (k "z") SInt None []].
+Example C15_example_dflt :
+  dflt_bin 9 [] tD (PDict [(PStr (k "z"), PInt 0)]) = true /\
+  dflt 9 [] tD (PDict [(PStr (k "z"), PInt 0)])
+    = Ok (ARecord [AArray [AArray [AInt 1; AInt 2]; AArray [AInt 3]]; AUnion 0 (AInt 5); AFloat 0x3F800000;
+                   ARecord [AInt 3; AString (k "qq")]; AInt 0]) /\
+  elab 9 wo0 [] tD (PDict [(PStr (k "z"), PInt 0)])
+    = WOk (ARecord [AArray [AArray [AInt 1; AInt 2]; AArray [AInt 3]]; AUnion 0 (AInt 5); AFloat 0x3F800000;
+                    ARecord [AInt 3; AString (k "qq")]; AInt 0]) /\
+  dflt_bin 9 [] (SUnion [SFloat; SDouble]) (PFloat 0x3FF8000000000000) = false /\
+  dflt 9 [] (SUnion [SFloat; SDouble]) (PFloat 0x3FF8000000000000) = Ok (AUnion 0 (AFloat 0x3FC00000)) /\
+  elab 9 wo0 [] (SUnion [SFloat; SDouble]) (PFloat 0x3FF8000000000000) = WOk (AUnion 1 (ADouble 0x3FF8000000000000)) /\
+  dflt_bin 9 [] SBytes (PStr [195; 191]) = false /\ dflt 9 [] SBytes (PStr [195; 191]) = Ok (ABytes [255]) /\
+  elab 9 wo0 [] SBytes (PStr [195; 191]) = WErr.
+Proof. repeat split; vm_compute; reflexivity. Qed.
+
+(* C15_json_binary on a datum that omits defaulted fields and gives an int for a float: side condition by computation *)
+Example C15_example_json_binary :
+  c15_side 9 [] tD (PDict [(PStr (k "z"), PInt 0); (PStr (k "x"), PInt 16777217)]) = true /\
+  json_write 9 [] tD (PDict [(PStr (k "z"), PInt 0); (PStr (k "x"), PInt 16777217)])
+    = Some (JvObj [(k "g", JvArr [JvArr [JvInt 1; JvInt 2]; JvArr [JvInt 3]]); (k "u", JvObj [(k "int", JvInt 5)]);
+                   (k "x", JvFloat 0x4170000000000000); (k "r", JvObj [(k "p", JvInt 3); (k "q", JvStr (k "qq"))]); (k "z", JvInt 0)]) /\
+  c15_side 9 [] SDouble (PFloat 0x7FF8000000000000) = false.
+Proof. repeat split; vm_compute; reflexivity. Qed.
+
+(* stream: two good documents, then one that lacks a key without default, then a good one: two records, then an exception;
+   member order and a member that is no field do not matter *)
+Definition tP : schema := SRecord (k "P") [] [mkField (k "x") SInt None []; mkField (k "y") SString (Some (PStr (k "d"))) []].
+Example C15_example_stream :
+  json_read_stream 9 ropts0 [] tP [JvObj [(k "x", JvInt 1); (k "y", JvStr (k "a"))]; JvObj [(k "x", JvInt 2)];
+                                   JvObj [(k "y", JvStr (k "b"))]; JvObj [(k "x", JvInt 4)]]
+    = ([PDict [(PStr (k "x"), PInt 1); (PStr (k "y"), PStr (k "a"))]; PDict [(PStr (k "x"), PInt 2); (PStr (k "y"), PStr (k "d"))]], Err) /\
+  json_dec 9 [] tP (JvObj [(k "zz", JvNull); (k "y", JvStr (k "a")); (k "x", JvInt 1)]) = json_dec 9 [] tP (JvObj [(k "x", JvInt 1); (k "y", JvStr (k "a"))]).
+Proof. split; vm_compute; reflexivity. Qed.
